@@ -1323,6 +1323,15 @@ func main() {
 		}
 		logf("violation candidate in run %d: %s/%s — confirming by replay in a fresh process", bestRun, best.Oracle, best.Signature)
 		v2, wo2 := replayOnce(bb, b, prop, bestChoices, "confirm")
+		if best.Oracle == "race" {
+			// The race detector keeps four accesses per eight bytes and evicts at random: whether it still remembers
+			// the first access of a racing pair when the second arrives is a matter of chance, so an execution that
+			// repeats exactly may or may not repeat the report. The report a worker saw is real (the detector has no
+			// false positives); a replay is given a few attempts to show it again.
+			for attempt := 0; attempt < 4 && !sameClass(v2, best); attempt++ {
+				v2, wo2 = replayOnce(bb, b, prop, bestChoices, "confirm")
+			}
+		}
 		if !sameClass(v2, best) && v2 != nil && v2.Property == best.Property && isKnown(v2) == nil {
 			logf("the replay of run %d shows %s/%s instead of %s/%s: same property, another detail — an order the simulator does not own decides which; reporting what the replays show", bestRun, v2.Oracle, v2.Signature, best.Oracle, best.Signature)
 			best = v2
@@ -1347,6 +1356,9 @@ func main() {
 					from = bestFrom
 				}
 				v, wo, vr := historyOnce(bb, b, prop, seed, from, bestRun, "hist")
+				for attempt := 0; best.Oracle == "race" && attempt < 2 && !(sameClass(v, best) && vr == bestRun); attempt++ {
+					v, wo, vr = historyOnce(bb, b, prop, seed, from, bestRun, "hist")
+				}
 				if sameClass(v, best) && vr == bestRun {
 					hist, vh, woh = from, v, wo
 					break
@@ -1359,7 +1371,19 @@ func main() {
 				die(2, "violation %s/%s (run %d) did not reproduce on replay (got %s), neither alone nor with the preceding runs %d..%d of its process: reported as non-reproducible, not as a violation\n%s", best.Oracle, best.Signature, bestRun, got, bestFrom, bestRun, lastLines(bestWo.output, 30)+"\n"+lastLines(wo2.output, 30))
 			}
 			// confirm once more (a history replay must itself be repeatable)
-			if v, _, vr := historyOnce(bb, b, prop, seed, hist, bestRun, "hist2"); !sameClass(v, best) || vr != bestRun {
+			again := false
+			for attempt := 0; attempt < 4 && !again; attempt++ {
+				v, _, vr := historyOnce(bb, b, prop, seed, hist, bestRun, "hist2")
+				again = sameClass(v, best) && vr == bestRun
+				if best.Oracle != "race" {
+					break // only the race detector's memory is a matter of chance
+				}
+			}
+			if !again && best.Oracle == "race" {
+				logf("the race report of run %d showed again in one of the history replays, not in the next four: the detector's memory of earlier accesses is evicted at random; reported (the report of the worker and of that replay are real executions)", bestRun)
+				again = true
+			}
+			if !again {
 				die(2, "violation %s/%s (run %d) reproduced once with runs %d..%d but not twice: reported as non-reproducible, not as a violation", best.Oracle, best.Signature, bestRun, hist, bestRun)
 			}
 			vh.Message += fmt.Sprintf("\n[needs the runs %d..%d of seed %d executed in one process: state inside the code under test survives from one run to the next; the replay re-executes exactly those runs]", hist, bestRun, seed)
@@ -1498,14 +1522,20 @@ func doReplay(prop string, spec *PropSpec, path string) int {
 	bb := buildScenario(b)
 	var v *Violation
 	var wo *workerOut
-	if rf.HistoryFrom != nil {
-		var vr int
-		v, wo, vr = historyOnce(bb, b, prop, rf.Seed, *rf.HistoryFrom, rf.Run, "replay")
-		if v != nil && vr != rf.Run {
-			fmt.Printf("note: the history replay failed in run %d, the recorded one in run %d\n", vr, rf.Run)
+	attempts := 1
+	if rf.Oracle == "race" {
+		attempts = 6 // the race detector's memory of earlier accesses is evicted at random (see the confirmation step)
+	}
+	for a := 0; a < attempts && v == nil; a++ {
+		if rf.HistoryFrom != nil {
+			var vr int
+			v, wo, vr = historyOnce(bb, b, prop, rf.Seed, *rf.HistoryFrom, rf.Run, "replay")
+			if v != nil && vr != rf.Run {
+				fmt.Printf("note: the history replay failed in run %d, the recorded one in run %d\n", vr, rf.Run)
+			}
+		} else {
+			v, wo = replayOnce(bb, b, prop, rf.Choices, "replay")
 		}
-	} else {
-		v, wo = replayOnce(bb, b, prop, rf.Choices, "replay")
 	}
 	if v == nil {
 		fmt.Printf("replay of %s: no violation (the recorded one was %s/%s)\n", path, rf.Oracle, rf.Signature)
